@@ -238,6 +238,10 @@ func init() {
 				}
 			}
 			rs = append(rs, HRun{Pkg: "./dig", Fn: "ZZ_C13_Signature", Params: []int{0, -1}})
+			// signatures of more than 256 bytes that differ only in their last input
+			rs = append(rs, HRun{Pkg: "./dig", Fn: "ZZ_C13_TwoEvents", Params: []int{7, 8}, Label: "long-signatures"},
+				HRun{Pkg: "./dig", Fn: "ZZ_C13_Signature", Params: []int{7, 3}, Label: "long-signatures"},
+				HRun{Pkg: "./dig", Fn: "ZZ_C13_Signature", Params: []int{8, 3}, Label: "long-signatures"})
 			// two events of the same name in one process: each hash is of its own signature
 			for a := 0; a <= 6; a++ {
 				for b := a + 1; b <= 6; b++ {
